@@ -46,6 +46,9 @@ def stats_traces(ctx: Ctx, n: int):
             hist.append((ctx.rng.choice([-2, -1, 0, 1, 3]), d))
         cases.append({"an": an, "hist": hist})
         traces.append(run_stats_case(an, hist))
+        if len(traces) % 100 == 0:
+            from ..core import relieve_jit
+            relieve_jit()
     return traces, cases
 
 
